@@ -13,7 +13,12 @@
    pattern bytes to the child's stdin in write calls of at most wchunk bytes and
    closes it, reads stdout and stderr in read calls of at most rchunk bytes, and
    waits: order 0 = wait first (nothing is read or written for a while), 1 =
-   drain to end of file, then wait, 2 = all at once, 3 = wait_with_output.
+   drain to end of file, then wait, 2 = all at once, 3 = wait_with_output,
+   4 / 5 = wait / wait_with_output while the Child still owns its ChildStdin
+   (n_in = 0): the handle is consumed by the wait, nobody else can close it any
+   more, and waiting closes it first (the behaviour std::process::Child::wait
+   documents, to which compio-process refers) — in the reference this is the
+   parent writer closing at once, i.e. order 2 with nothing to write.
 
    The scenario is SIMULATED on the reference: three pipes of capacity 65536
    (PipeSpec), a fair round-robin schedule of the actors (parent writer, child,
@@ -315,7 +320,8 @@ Definition decode (l : list N) : option cfg :=
        && (1 <=? rchunk) && (rchunk <=? MAXSZ) && (1 <=? wchunk) && (wchunk <=? MAXSZ)
        && ((n_in + n_out + n_err) / N.min rchunk wchunk <=? MAXSTEPS)
        && (if ekind =? 0 then earg <=? 255 else (ekind =? 1) && valid_signal earg)
-       && (order <=? 3) && (reuse <=? 1) && (delay <=? 500)
+       && (order <=? 5) && ((order <? 4) || ((use_stdin =? 1) && (n_in =? 0)))
+       && (reuse <=? 1) && (delay <=? 500)
     then Some (mkcfg (use_stdin =? 1) n_in n_out n_err rchunk wchunk
                      (if ekind =? 0 then earg * 256 else earg) order)
     else None
